@@ -61,6 +61,92 @@ def agree_on_bytes(run, key, rp, data, delimited, arbiter=None):
     return n
 
 
+USAGE = [0]
+
+
+def usage_variants(run, key, rp, data, delimited):
+    """The same bytes through the less common ways of calling the parsers: custom factories (subclasses), a target Graph/Dataset that is not empty,
+    the plugin interface, GenericStatementSink.parse -- all must agree with the plain calls."""
+    import io  # noqa: PLC0415
+    import rdflib  # noqa: PLC0415
+    from rdflib.graph import Dataset, Graph  # noqa: PLC0415
+    from pyjelly.integrations.generic import parse as gp  # noqa: PLC0415
+    from pyjelly.integrations.rdflib import parse as rpm  # noqa: PLC0415
+
+    n = 0
+    base_r = _safe(impl.parse, "rdflib", data, "to_graph")
+    base_g = _safe(impl.parse, "generic", data, "to_graph")
+    if isinstance(base_r, str) or isinstance(base_g, str):
+        return n
+
+    class MyGraph(Graph):
+        pass
+
+    class MyDataset(Dataset):
+        pass
+
+    gs = terms.generic_classes()
+
+    class MySink(gs.GenericStatementSink):
+        pass
+
+    def rd(fn):
+        try:
+            return fn()
+        except Exception as ex:  # noqa: BLE001
+            return f"EXC:{type(ex).__name__}:{str(ex)[:120]}"
+
+    # rdflib: custom factories
+    res = rd(lambda: rpm.parse_jelly_to_graph(io.BytesIO(data), graph_factory=lambda: MyGraph(), dataset_factory=lambda: MyDataset()))
+    n += 1
+    if isinstance(res, str):
+        run.violation({"clause": "usage:custom-factory-raised", "integ": "rdflib", **key}, res, rp)
+    else:
+        if not isinstance(res, (MyGraph, MyDataset)):
+            run.violation({"clause": "usage:factory-ignored", "integ": "rdflib", **key}, f"parse_jelly_to_graph returned a {type(res).__name__}, not what the factory makes", rp)
+        if {rdf_norm(x) for x in impl._items_of_rdflib_store(res)} != {rdf_norm(x) for x in base_r}:
+            run.violation({"clause": "usage:custom-factory-differs", "integ": "rdflib", **key}, "content differs when the sinks come from custom factories", rp)
+    if delimited:
+        res = rd(lambda: list(rpm.parse_jelly_grouped(io.BytesIO(data), graph_factory=lambda: MyGraph(), dataset_factory=lambda: MyDataset())))
+        n += 1
+        if isinstance(res, str):
+            run.violation({"clause": "usage:custom-factory-raised", "integ": "rdflib", "parse": "grouped", **key}, res, rp)
+        elif any(not isinstance(x, (MyGraph, MyDataset)) for x in res):
+            run.violation({"clause": "usage:factory-ignored", "integ": "rdflib", "parse": "grouped", **key}, "parse_jelly_grouped yielded sinks the factories did not make", rp)
+    # rdflib: the plugin, into a target that already holds a statement
+    is_ds = any(len(x) == 4 for x in base_r)
+    marker = (rdflib.URIRef("urn:marker:s"), rdflib.URIRef("urn:marker:p"), rdflib.Literal("already here"))
+    target = Dataset() if is_ds else Graph()
+    (target.default_context if is_ds else target).add(marker)
+    res = rd(lambda: target.parse(io.BytesIO(data), format="jelly"))
+    n += 1
+    if isinstance(res, str):
+        run.violation({"clause": "usage:parse-into-nonempty-raised", "integ": "rdflib", **key}, res, rp)
+    else:
+        got = {rdf_norm(x) for x in impl._items_of_rdflib_store(target)}
+        mk = rdf_norm(tuple(terms.from_rdflib(t) for t in marker) + ((("dg",),) if is_ds else ()))
+        if got != {rdf_norm(x) for x in base_r} | {mk}:
+            run.violation({"clause": "usage:parse-into-nonempty-differs", "integ": "rdflib", **key},
+                          f"Graph.parse into a target holding one statement: {len(got)} statements afterwards, expected {len(set(map(rdf_norm, base_r)) | {mk})}", rp)
+    # generic: custom sink factory, and GenericStatementSink.parse
+    res = rd(lambda: gp.parse_jelly_to_graph(io.BytesIO(data), sink_factory=lambda: MySink()))
+    n += 1
+    if isinstance(res, str):
+        run.violation({"clause": "usage:custom-factory-raised", "integ": "generic", **key}, res, rp)
+    else:
+        if not isinstance(res, MySink):
+            run.violation({"clause": "usage:factory-ignored", "integ": "generic", **key}, f"parse_jelly_to_graph returned a {type(res).__name__}", rp)
+        if split_ns([terms.item_from_generic(gp.Prefix(p_, i_)) for p_, i_ in res.namespaces] + [terms.item_from_generic(x) for x in res]) != split_ns(base_g):
+            run.violation({"clause": "usage:custom-factory-differs", "integ": "generic", **key}, "content differs when the sink comes from a custom factory", rp)
+    res = _safe(impl.parse, "generic", data, "sink_parse")
+    n += 1
+    if isinstance(res, str):
+        run.violation({"clause": "usage:sink-parse-raised", "integ": "generic", **key}, res, rp)
+    elif split_ns(res) != split_ns(base_g):
+        run.violation({"clause": "usage:sink-parse-differs", "integ": "generic", **key}, "GenericStatementSink.parse differs from parse_jelly_to_graph", rp)
+    return n
+
+
 def main(tier: str) -> int:
     run = report.Run("C15", "model_checking", tier)
     seed = env.seed()
@@ -94,6 +180,9 @@ def main(tier: str) -> int:
                 streams += 1
                 parses += agree_on_bytes(run, {"source": "reference-encoder", "config": name, "delimited": delimited},
                                          {"rows": beh["rows"], "hex": data.hex()}, data, delimited, arbiter=den)
+                if streams % 4 == 0:
+                    USAGE[0] += 1
+                    parses += usage_variants(run, {"source": "reference-encoder", "config": name, "delimited": delimited}, {"rows": beh["rows"], "hex": data.hex()}, data, delimited)
     # (a2) streams from pyjelly itself, and (b) byte-identical output of the two serializers
     subs = writer.substitutions(seed)
     identical = 0
@@ -149,7 +238,7 @@ def main(tier: str) -> int:
                 samples.append({"key": key, "statements": [repr(s) for s in stmts[:2]], "bytes": len(data)})
     return run.finish({
         "states": gen_states, "transitions": gen_states, "traces_validated_against_impl": streams, "samples": samples, "exhaustive": False,
-        "streams": streams, "parses": parses, "serializer_pairs_compared": identical,
+        "streams": streams, "parses": parses, "serializer_pairs_compared": identical, "streams_through_usage_variants": USAGE[0],
         "explanation": "TLC-generated RDF 1.1 streams (JellyProducer: arbitrary legal choices; PyWriter behaviours through the real serializers) are parsed through all six "
                        "entry points: flat = concat(grouped) = to_graph within an integration, rdflib = generic term for term; the Tier-1 denotation arbitrates which side is "
                        "wrong; corresponding generic/rdflib statement iterators with equal options must serialize to identical bytes",
